@@ -215,7 +215,10 @@ contract(P + 'remove',
                  'and old(inpool(self, p, i)), inpool(self, p, i) and at(self, p, i) is old(at(self, p, i))), '
                  'p="str", i="str")',
          },
-         modifies=['all:[*]', 'self.active_tasks_changed', 'self.tasks_removed', 'itask.transient'],
+         modifies=['all:[*]', 'self.active_tasks_changed', 'self.tasks_removed', 'itask.transient',
+                   # the held state is dropped first (release_held_active_task)
+                   'itask.state.is_held', 'itask.state.is_queued', 'itask.state.time_updated',
+                   'itask.state.is_updated', 'itask.state.kill_failed'],
          options={'merge_ifs': True, 'weight': 20}, props=['C26'])
 
 contract(P + 'get_tasks',
